@@ -82,7 +82,7 @@ def generate(ctx):
         yield {"kind": "pbc", "cls": "ortho-grid", "self": [a], "target": {"point": b},
                "box": [[L[0], 0.0, 0.0], [0.0, L[1], 0.0], [0.0, 0.0, L[2]]],
                "shift_t": [rng.randint(-3, 3) for _ in range(3)], "shift_s": [rng.randint(-3, 3) for _ in range(3)]}
-    n_main = ctx.n(2000, 100000)
+    n_main = ctx.n(12000, 100000)
     prevL = None
     prev_box = None
     for _ in range(n_main):
